@@ -824,6 +824,66 @@ pub fn gen_pred(rng: &mut Rng) -> PredD {
     PredD { k, r: rng.below(k.min(13)) }
 }
 
+/// search helper: variants of one case — same chain shape, closures, terminal and source kind;
+/// other inputs, lengths, parameters and schedules
+pub fn neighbors(out: &mut dyn Write, base: &Case, seed: u64, count: usize) -> std::io::Result<()> {
+    let mut rng = Rng::new(seed ^ 0x5EA2C4);
+    writeln!(out, "Q\t{}\tok", crate::l0::consts_line())?;
+    for i in 0..count {
+        let mut c = base.clone();
+        let len = match i % 4 {
+            0 => base.input.len(),
+            1 => gen_len(&mut rng, false),
+            2 => rng.range(0, 12) as usize,
+            _ => rng.range(20, 200) as usize,
+        };
+        let distinct = base.input.iter().collect::<std::collections::HashSet<_>>().len() == base.input.len();
+        let dist2 = distinct || rng.chance(1, 2);
+        c.input = gen_input(&mut rng, len, dist2);
+        if i % 3 != 0 {
+            // keep the kinds of setters, vary their values
+            for ss in c.sets.iter_mut() {
+                for s in ss.iter_mut() {
+                    *s = match *s {
+                        SetD::NtUsize(n) if n != 1 => SetD::NtUsize(*rng.pick(&[0usize, 2, 3, 4, 7, 16])),
+                        SetD::NtEnum(NumThreads::Max(n)) if n.get() != 1 => SetD::NtEnum(NumThreads::Max(nz(rng.range(2, 9) as usize))),
+                        SetD::CsUsize(_) => SetD::CsUsize(*rng.pick(&[0usize, 1, 2, 3, 5, 8, len.max(1), len + 1])),
+                        SetD::CsEnum(ChunkSize::Exact(_)) => SetD::CsEnum(ChunkSize::Exact(nz(*rng.pick(&[1usize, 2, 3, 5, 8, len.max(1), len + 1])))),
+                        SetD::CsEnum(ChunkSize::Min(_)) => SetD::CsEnum(ChunkSize::Min(nz(*rng.pick(&[1usize, 2, 3, 5, 8, len + 1])))),
+                        other => other,
+                    };
+                }
+            }
+        }
+        if i % 5 == 4 {
+            // vary the closures too
+            c.ops = c.ops.iter().map(|o| gen_op(&mut rng, o.kind())).collect();
+        }
+        let p = final_params(&c);
+        let maxw = match p.num_threads {
+            NumThreads::Auto => 8,
+            NumThreads::Max(n) => n.get().min(16) as u32,
+        };
+        c.mode = if !p.is_sequential() && !c.has_eager() && !c.ops.is_empty() && len <= 200 && rng.chance(1, 2) {
+            Mode::Ctl(gen_schedule(&mut rng, len, maxw))
+        } else {
+            Mode::Free(if rng.chance(2, 3) { rng.next() | 1 } else { 0 })
+        };
+        if let Some((st, _)) = base.panic_at {
+            let ex = expect(&c);
+            let cand: Vec<(u32, u64)> = ex.log.iter().copied().filter(|e| e.0 == st).collect();
+            if cand.is_empty() {
+                continue;
+            }
+            c.panic_at = Some(*rng.pick(&cand));
+        }
+        writeln!(out, "BEGIN\t{}", c.enc())?;
+        out.flush()?;
+        emit_case(out, "neighbor", &c, false)?;
+    }
+    Ok(())
+}
+
 pub fn run(out: &mut dyn Write, prop: &str, seed: u64, thorough: bool) -> std::io::Result<()> {
     let mut rng = Rng::new(seed ^ prop.bytes().fold(0u64, |a, b| a.wrapping_mul(131).wrapping_add(b as u64)));
     writeln!(out, "Q\t{}\tok", crate::l0::consts_line())?;
